@@ -228,6 +228,18 @@ def iss_predicate(op_fields, impl):
         # SAN kinds
         if rec["ip"] != "-" and kv["ipok"] != "1":
             out.append("IP SAN although the role has allow_ip_sans=false")
+        if rec["ip"] != "-" and kv.get("acidr", "-") != "-":
+            import ipaddress
+            nets = []
+            for c in kv["acidr"].split(","):
+                fam, base, plen = c.split(":")
+                nets.append((fam, int(base), int(plen)))
+            for ip in rec["ip"].split(","):
+                a = ipaddress.ip_address(ip)
+                fam, w = ("4", 32) if a.version == 4 else ("6", 128)
+                if not any(f == fam and (int(a) >> (w - pl)) == (b >> (w - pl)) for f, b, pl in nets):
+                    out.append({"what": "IP SAN %s lies outside every network of the role's allowed_ip_sans_cidr" % ip,
+                                "signature": "ip-san-outside-allowed-cidr"})
         pats = hlist(kv["auri"])
         for u in hlist(rec["uri"]):
             if not any(glob_match(p, u) for p in pats):
